@@ -187,6 +187,23 @@ theorem portions_of_remaining {env : VEnv} {specs : List PortionSpec} {ps : List
     (h : resolvePortions env specs = .ok ps) (hrem : PortionSpec.remaining ∈ specs) :
     (ratSum ps).1 = (ratSum ps).2 := resolvePortions_sum_one_of_remaining h hrem
 
+/-- every portion list the compiler accepts resolves to portions adding up to exactly one -/
+theorem portions_of_checked {Γ : TEnv} {env : VEnv} {specs : List PortionSpec} {ps : List Rat'}
+    (hc : checkPortions Γ specs = true) (h : resolvePortions env specs = .ok ps) :
+    (ratSum ps).1 = (ratSum ps).2 := resolvePortions_sum_one_of_checked hc h
+
+/-- … so for an accepted script whose portion denominators are positive (in the text and in the portion
+variables — true of everything the parser and `parsePortion` build) the allotment-source send is exact too -/
+theorem send_exact_allot_checked {Γ : TEnv} {env : VEnv} {e : Expr} {items : List (PortionSpec × Source)} {d : Dest}
+    {st st' : St} {ma : Asset} {mn : Int}
+    (h : evalSend env (.mon e) (.allot items) d st = .ok st') (hm : evalMon env e = .ok (ma, mn))
+    (hc : checkPortions Γ (items.map (·.1)) = true)
+    (hv : ∀ n r, lookupVar env n = some (.portion r) → 0 < r.den)
+    (hk : ∀ r, PortionSpec.const r ∈ items.map (·.1) → 0 < r.den) :
+    ∃ new kept, st'.postings = st.postings ++ new ∧ (∀ p ∈ new, 0 ≤ p.amt ∧ p.asset = ma) ∧
+      sumAmt new = mn - kept ∧ 0 ≤ kept :=
+  send_exact_allot h hm (fun _ hp => ⟨resolvePortions_posDen hp hv hk, resolvePortions_sum_one_of_checked hc hp⟩)
+
 /-- `send [A *] (source = s  destination = d)`: the postings add up to everything the source provides, minus
 what the destination keeps -/
 theorem send_all_exact {env : VEnv} {ae : Expr} {s : Source} {d : Dest} {st st' : St}
